@@ -4,114 +4,184 @@ From C02 Require Import Model.
 Open Scope Z_scope.
 
 (* ---------------------------------------------------------------------------------------------- *)
-(* relay: independent specification *)
+(* dict update: the last binding of a key wins, every other key passes through *)
+Definition last_binding (k : Z) (d : list (Z * Z)) (dflt : option Z) : option Z :=
+  fold_left (fun acc kv => if k =? fst kv then Some (snd kv) else acc) d dflt.
 
-(* kwargs after the dict results of a list of handlers, each applied to what it saw *)
-Fixpoint relay_kwargs (hs : list shandler) (kw : kwargs) : kwargs :=
-  match hs with
-  | [] => kw
-  | h :: hs' => relay_kwargs hs' (match sh_res h kw with RDict d => kw_update kw d | _ => kw end)
-  end.
-
-(* what handler number i (0-based) must be called with *)
-Definition relay_view (hs : list shandler) (kw : kwargs) (i : nat) : kwargs := relay_kwargs (firstn i hs) kw.
-
-Fixpoint relay_views (hs : list shandler) (kw : kwargs) : list (Z * kwargs) :=
-  match hs with
-  | [] => []
-  | h :: hs' => (sh_id h, kw) :: relay_views hs' (match sh_res h kw with RDict d => kw_update kw d | _ => kw end)
-  end.
-
-Lemma run_sync_relay_gen : forall hs kw seen last,
-  so_seen (run_sync TRelay hs kw seen last) = rev seen ++ relay_views hs kw /\
-  so_kwargs (run_sync TRelay hs kw seen last) = relay_kwargs hs kw.
+Lemma kw_get_set k k' v kw : kw_get k (kw_set k' v kw) = if k =? k' then Some v else kw_get k kw.
 Proof.
-  induction hs as [|h hs IH]; intros kw seen last; cbn [run_sync relay_views relay_kwargs].
-  - cbn. rewrite app_nil_r. split; reflexivity.
-  - destruct (sh_res h kw) as [|b|z|d] eqn:E.
-    + destruct (IH kw ((sh_id h, kw) :: seen) RNone) as [A B].
-      rewrite A, B. cbn [rev]. rewrite <- app_assoc. split; reflexivity.
-    + destruct (IH kw ((sh_id h, kw) :: seen) (RBool b)) as [A B].
-      rewrite A, B. cbn [rev]. rewrite <- app_assoc. split; reflexivity.
-    + destruct (IH kw ((sh_id h, kw) :: seen) (RInt z)) as [A B].
-      rewrite A, B. cbn [rev]. rewrite <- app_assoc. split; reflexivity.
-    + destruct (IH (kw_update kw d) ((sh_id h, kw) :: seen) (RDict d)) as [A B].
-      rewrite A, B. cbn [rev]. rewrite <- app_assoc. split; reflexivity.
+  induction kw as [|[a b] kw IH]; cbn.
+  - destruct (k =? k'); reflexivity.
+  - destruct (k' =? a) eqn:E1.
+    + apply Z.eqb_eq in E1; subst. cbn. destruct (k =? a); reflexivity.
+    + destruct (k' <? a) eqn:E2; cbn.
+      * destruct (k =? k'); reflexivity.
+      * rewrite IH. destruct (k =? a) eqn:E3; [|reflexivity].
+        apply Z.eqb_eq in E3; subst. rewrite Z.eqb_sym, E1. reflexivity.
 Qed.
 
-Lemma relay_views_nth : forall hs kw i h,
-  nth_error hs i = Some h -> nth_error (relay_views hs kw) i = Some (sh_id h, relay_view hs kw i).
+Lemma kw_get_update k : forall d kw, kw_get k (kw_update kw d) = last_binding k d (kw_get k kw).
 Proof.
-  induction hs as [|x hs IH]; intros kw i h H.
-  - destruct i; discriminate.
-  - destruct i as [|i]; cbn in *.
-    + inversion H; subst. reflexivity.
-    + unfold relay_view in *. cbn [firstn relay_kwargs]. apply IH. exact H.
-Qed.
-
-Lemma relay_fold_l : forall hs kw,
-  let o := run_sync TRelay hs kw [] RNone in
-  (forall i h, nth_error hs i = Some h -> nth_error (so_seen o) i = Some (sh_id h, relay_view hs kw i)) /\
-  length (so_seen o) = length hs /\
-  so_kwargs o = relay_kwargs hs kw.
-Proof.
-  intros hs kw o. destruct (run_sync_relay_gen hs kw [] RNone) as [A B]. subst o.
-  rewrite A, B. cbn [rev app]. repeat split.
-  - intros i h H. apply relay_views_nth. exact H.
-  - clear. revert kw. induction hs; intros; cbn; [reflexivity | rewrite IHhs; reflexivity].
+  unfold kw_update, last_binding. induction d as [|[k' v] d IH]; intros kw; cbn; [reflexivity|].
+  rewrite IH, kw_get_set. reflexivity.
 Qed.
 
 (* ---------------------------------------------------------------------------------------------- *)
-(* boolean *)
+(* relay / boolean / plain: independent, positional specification of _run_handlers *)
+
+(* the effect of handler h on the event's kwargs when the kwargs are st *)
+Definition sync_step (t : evtype) (st : sstate) (h : shandler) : sstate :=
+  if blocked h (snd st) then st else apply_res t (sh_res h (hview h st)) st.
+
+(* the event's kwargs after the handlers hs (none of which aborts) *)
+Definition st_after (t : evtype) (hs : list shandler) (st : sstate) : sstate := fold_left (sync_step t) hs st.
+
+(* the calls made for the handlers [rest] which come after the handlers [pre]: handler number i is called - unless
+   blocked by _min_priority - with the kwargs as updated by ALL handlers before it, overridden by its own
+   registered kwargs *)
+Fixpoint calls (t : evtype) (pre rest : list shandler) (st0 : sstate) : list (Z * sstate) :=
+  match rest with
+  | [] => []
+  | h :: r =>
+      (let st := st_after t pre st0 in if blocked h (snd st) then [] else [(sh_id h, hview h st)])
+      ++ calls t (pre ++ [h]) r st0
+  end.
 
 Definition is_false (r : result) : bool := match r with RBool false => true | _ => false end.
 
-Lemma run_sync_bool_nofalse : forall hs kw seen last,
-  (forall x, In x hs -> is_false (sh_res x kw) = false) ->
-  let o := run_sync TBoolean hs kw seen last in
-  so_seen o = rev seen ++ map (fun h => (sh_id h, kw)) hs /\ so_kwargs o = kw /\ so_false o = false.
+(* handler h, reached with kwargs st, ends the dispatch (boolean events only) *)
+Definition aborts (t : evtype) (h : shandler) (st : sstate) : bool :=
+  match t with
+  | TBoolean => negb (blocked h (snd st)) && is_false (sh_res h (hview h st))
+  | _ => false
+  end.
+
+Definition no_abort (t : evtype) (hs : list shandler) (st0 : sstate) : Prop :=
+  forall pre x post, hs = pre ++ x :: post -> aborts t x (st_after t pre st0) = false.
+
+Fixpoint calls_from (t : evtype) (hs : list shandler) (st : sstate) : list (Z * sstate) :=
+  match hs with
+  | [] => []
+  | h :: r => if blocked h (snd st) then calls_from t r st
+              else (sh_id h, hview h st) :: calls_from t r (apply_res t (sh_res h (hview h st)) st)
+  end.
+
+Lemma st_after_snoc t pre h st : st_after t (pre ++ [h]) st = sync_step t (st_after t pre st) h.
+Proof. unfold st_after. rewrite fold_left_app. reflexivity. Qed.
+
+Lemma calls_from_calls t : forall rest pre st0,
+  calls_from t rest (st_after t pre st0) = calls t pre rest st0.
 Proof.
-  induction hs as [|h hs IH]; intros kw seen last H; cbn [run_sync map].
-  - cbn. rewrite app_nil_r. auto.
-  - assert (Hh : is_false (sh_res h kw) = false) by (apply H; left; reflexivity).
-    assert (Ht : forall x, In x hs -> is_false (sh_res x kw) = false) by (intros; apply H; right; assumption).
-    destruct (sh_res h kw) as [|b|z|d] eqn:E; try destruct b; try discriminate Hh;
-      destruct (IH kw ((sh_id h, kw) :: seen) (sh_res h kw) Ht) as [A [B C]]; rewrite E in *;
-      rewrite A, B, C; cbn [rev]; rewrite <- app_assoc; auto.
+  induction rest as [|h r IH]; intros pre st0; cbn [calls_from calls]; [reflexivity|].
+  rewrite <- IH, st_after_snoc. unfold sync_step.
+  destruct (blocked h (snd (st_after t pre st0))); reflexivity.
 Qed.
 
-Lemma run_sync_bool_false : forall pre kw h post seen last,
-  (forall x, In x pre -> is_false (sh_res x kw) = false) ->
-  is_false (sh_res h kw) = true ->
-  let o := run_sync TBoolean (pre ++ h :: post) kw seen last in
-  so_seen o = rev seen ++ map (fun h => (sh_id h, kw)) (pre ++ [h]) /\ so_kwargs o = kw /\
+Lemma no_abort_tail t h hs st : no_abort t (h :: hs) st -> no_abort t hs (sync_step t st h).
+Proof.
+  intros H pre x post E. specialize (H (h :: pre) x post). cbn in H. apply H. rewrite E. reflexivity.
+Qed.
+
+Lemma run_sync_no_abort t : forall hs st seen last, no_abort t hs st ->
+  let o := run_sync t hs st seen last in
+  so_seen o = rev seen ++ calls_from t hs st /\ so_st o = st_after t hs st /\ so_false o = false.
+Proof.
+  induction hs as [|h hs IH]; intros st seen last H; cbn [run_sync calls_from st_after fold_left].
+  - cbn. rewrite app_nil_r. auto.
+  - pose proof (H [] h hs eq_refl) as Hh. cbn in Hh.
+    pose proof (no_abort_tail _ _ _ _ H) as Ht. unfold sync_step in Ht |- *.
+    destruct (blocked h (snd st)) eqn:B.
+    + apply IH. exact Ht.
+    + assert (G : forall r, r = sh_res h (hview h st) ->
+        let o := run_sync t hs (apply_res t r st) ((sh_id h, hview h st) :: seen) r in
+        so_seen o = rev seen ++ (sh_id h, hview h st) :: calls_from t hs (apply_res t r st) /\
+        so_st o = st_after t hs (apply_res t r st) /\ so_false o = false).
+      { intros r ->. cbv zeta. destruct (IH _ ((sh_id h, hview h st) :: seen) (sh_res h (hview h st)) Ht) as [A [B' C]].
+        rewrite A, B', C. cbn [rev]. rewrite <- app_assoc. auto. }
+      unfold aborts in Hh. rewrite B in Hh.
+      destruct t; destruct (sh_res h (hview h st)) as [|[|]|z|d|d m] eqn:E;
+        try (apply (G _ eq_refl)); cbn in Hh; discriminate Hh.
+Qed.
+
+Lemma run_sync_abort : forall pre h post st seen last,
+  no_abort TBoolean pre st -> aborts TBoolean h (st_after TBoolean pre st) = true ->
+  let o := run_sync TBoolean (pre ++ h :: post) st seen last in
+  so_seen o = rev seen ++ calls_from TBoolean (pre ++ [h]) st /\ so_st o = st_after TBoolean pre st /\
   so_false o = true /\ so_last o = RBool false.
 Proof.
-  induction pre as [|p pre IH]; intros kw h post seen last H Hf; cbn [app run_sync map].
-  - destruct (sh_res h kw) as [|b|z|d] eqn:E; try destruct b; try discriminate Hf. cbn. auto.
-  - assert (Hh : is_false (sh_res p kw) = false) by (apply H; left; reflexivity).
-    assert (Ht : forall x, In x pre -> is_false (sh_res x kw) = false) by (intros; apply H; right; assumption).
-    destruct (sh_res p kw) as [|b|z|d] eqn:E; try destruct b; try discriminate Hh;
-      destruct (IH kw h post ((sh_id p, kw) :: seen) (sh_res p kw) Ht Hf) as [A [B [C D]]]; rewrite E in *;
-      rewrite A, B, C, D; cbn [rev]; rewrite <- app_assoc; auto.
+  induction pre as [|p pre IH]; intros h post st seen last H Hf; cbn [app run_sync calls_from st_after fold_left] in *.
+  - unfold aborts in Hf. destruct (blocked h (snd st)) eqn:B; [discriminate|]. cbn in Hf.
+    destruct (sh_res h (hview h st)) as [|[|]|z|d|d m] eqn:E; try discriminate Hf. cbn. auto.
+  - pose proof (H [] p pre eq_refl) as Hp. unfold st_after in Hp. cbn [fold_left] in Hp.
+    pose proof (no_abort_tail _ _ _ _ H) as Ht. unfold sync_step in Ht, Hf |- *.
+    destruct (blocked p (snd st)) eqn:B.
+    + apply IH; assumption.
+    + unfold aborts in Hp. rewrite B in Hp. cbn [negb andb] in Hp.
+      assert (G : run_sync TBoolean (pre ++ h :: post) (apply_res TBoolean (sh_res p (hview p st)) st)
+                    ((sh_id p, hview p st) :: seen) (sh_res p (hview p st)) =
+                  match sh_res p (hview p st) with
+                  | RBool false => mkSO (rev ((sh_id p, hview p st) :: seen)) st true (sh_res p (hview p st))
+                  | _ => run_sync TBoolean (pre ++ h :: post) (apply_res TBoolean (sh_res p (hview p st)) st)
+                           ((sh_id p, hview p st) :: seen) (sh_res p (hview p st))
+                  end).
+      { destruct (sh_res p (hview p st)) as [|[|]|z|d|d m]; try reflexivity. discriminate Hp. }
+      rewrite <- G. clear G.
+      destruct (IH h post _ ((sh_id p, hview p st) :: seen) (sh_res p (hview p st)) Ht Hf) as [A [B' [C D]]].
+      rewrite A, B', C, D. cbn [rev]. rewrite <- app_assoc. auto.
 Qed.
 
-Lemma boolean_first_false_l : forall hs kw,
-  let o := run_sync TBoolean hs kw [] RNone in
-  (forall pre h post, hs = pre ++ h :: post ->
-     (forall x, In x pre -> is_false (sh_res x kw) = false) -> is_false (sh_res h kw) = true ->
-     so_seen o = map (fun h => (sh_id h, kw)) (pre ++ [h]) /\ so_kwargs o = kw /\ callback_evres o = EFalse) /\
-  ((forall x, In x hs -> is_false (sh_res x kw) = false) ->
-     so_seen o = map (fun h => (sh_id h, kw)) hs /\ so_kwargs o = kw /\ callback_evres o <> EFalse).
+Lemma no_abort_not_boolean t hs st : t <> TBoolean -> no_abort t hs st.
+Proof. intros Ht pre x post _. destruct t; try reflexivity. congruence. Qed.
+
+Lemma st_after_fst t : t <> TRelay -> forall hs st, fst (st_after t hs st) = fst st.
 Proof.
-  intros hs kw o. split.
-  - intros pre h post -> H Hf. subst o.
-    destruct (run_sync_bool_false pre kw h post [] RNone H Hf) as [A [B [C D]]].
-    rewrite A, B. repeat split. unfold callback_evres. rewrite D, C. reflexivity.
-  - intros H. subst o. destruct (run_sync_bool_nofalse hs kw [] RNone H) as [A [B C]].
-    rewrite A, B. repeat split. unfold callback_evres. rewrite C.
-    destruct (truthy _); discriminate.
+  intros Ht. induction hs as [|h hs IH]; intros st; cbn; [reflexivity|].
+  unfold st_after in IH. rewrite IH. unfold sync_step. destruct (blocked h (snd st)); [reflexivity|].
+  destruct t; try congruence; destruct (sh_res h (hview h st)); reflexivity.
 Qed.
+
+(* relay: every handler that is not blocked is called, in order, with the kwargs as updated by all earlier handlers
+   and overridden by its own registered kwargs; the callback gets the final kwargs.  hview / a dict result are
+   dict updates: the last binding wins, all other keys pass through. *)
+Lemma relay_fold_l : forall hs st0,
+  let o := run_sync TRelay hs st0 [] RNone in
+  so_seen o = calls TRelay [] hs st0 /\ so_st o = st_after TRelay hs st0 /\
+  (forall h st k, kw_get k (fst (hview h st)) = last_binding k (sh_kw h) (kw_get k (fst st)) /\ snd (hview h st) = snd st) /\
+  (forall d st k, kw_get k (fst (apply_res TRelay (RDict d) st)) = last_binding k d (kw_get k (fst st))) /\
+  (forall d m st k, kw_get k (fst (apply_res TRelay (RDictMP d m) st)) = last_binding k d (kw_get k (fst st)) /\
+                    snd (apply_res TRelay (RDictMP d m) st) = Some m).
+Proof.
+  intros hs st0 o. subst o.
+  destruct (run_sync_no_abort TRelay hs st0 [] RNone (no_abort_not_boolean TRelay hs st0 ltac:(discriminate))) as [A [B _]].
+  rewrite A, B. cbn [rev app]. rewrite <- (calls_from_calls TRelay hs [] st0). cbn.
+  repeat split; intros; cbn; apply kw_get_update.
+Qed.
+
+Lemma boolean_first_false_l : forall hs st0,
+  let o := run_sync TBoolean hs st0 [] RNone in
+  (forall pre h post, hs = pre ++ h :: post ->
+     no_abort TBoolean pre st0 -> aborts TBoolean h (st_after TBoolean pre st0) = true ->
+     so_seen o = calls TBoolean [] (pre ++ [h]) st0 /\ so_st o = st_after TBoolean pre st0 /\
+     fst (so_st o) = fst st0 /\ callback_evres o = EFalse) /\
+  (no_abort TBoolean hs st0 ->
+     so_seen o = calls TBoolean [] hs st0 /\ so_st o = st_after TBoolean hs st0 /\
+     fst (so_st o) = fst st0 /\ callback_evres o <> EFalse).
+Proof.
+  intros hs st0 o. split.
+  - intros pre h post -> H Hf. subst o.
+    destruct (run_sync_abort pre h post st0 [] RNone H Hf) as [A [B [C D]]].
+    rewrite A, B. cbn [rev app]. rewrite <- (calls_from_calls TBoolean (pre ++ [h]) [] st0). cbn.
+    repeat split. + apply st_after_fst. discriminate. + unfold callback_evres. rewrite D, C. reflexivity.
+  - intros H. subst o. destruct (run_sync_no_abort TBoolean hs st0 [] RNone H) as [A [B C]].
+    rewrite A, B. cbn [rev app]. rewrite <- (calls_from_calls TBoolean hs [] st0). cbn.
+    repeat split. + apply st_after_fst. discriminate.
+    + unfold callback_evres. rewrite C. destruct (truthy _); discriminate.
+Qed.
+
+(* the handlers called are exactly the unblocked ones, whatever the event type *)
+Lemma calls_blocked_skipped t h pre rest st0 :
+  blocked h (snd (st_after t pre st0)) = true -> calls t pre (h :: rest) st0 = calls t (pre ++ [h]) rest st0.
+Proof. intros B. cbn [calls]. rewrite B. reflexivity. Qed.
 
 (* ---------------------------------------------------------------------------------------------- *)
 (* refutation witnesses (evaluated by vm_compute) *)
